@@ -307,6 +307,7 @@ class DictV(V):
 
     text: str
     taint: frozenset = frozenset()
+    stores: list = field(default_factory=list)  # (key of the key value, stored value): memo tables `if k not in d: d[k] = f(k)`
 
 
 @dataclass(eq=False)
@@ -1296,7 +1297,9 @@ class Interp:
             if isinstance(recv, Coll):
                 self.coll_add(fr, recv, self.ev(fr, target.slice) if recv.keyed else v, stmt)
             elif isinstance(recv, DictV):
-                recv.taint |= self.value_taint(v) | self.value_taint(self.ev(fr, target.slice))
+                kv = self.ev(fr, target.slice)
+                recv.taint |= self.value_taint(v) | self.value_taint(kv)
+                recv.stores.append((key(kv), v))
 
     # ------------------------------------------------------------------ collections
     def as_coll(self, v: V) -> Coll:
@@ -1712,6 +1715,11 @@ class Interp:
                 return Unknown(f"{key(v)}[..]")
             if isinstance(v, (DictV, DictCompV)):
                 sl = self.ev(fr, e.slice)
+                if isinstance(v, DictV) and root_elem(sl) is not None:
+                    # a memo table: what was stored under this very key (by this or an earlier iteration of the same code)
+                    for k_, val in reversed(v.stores):
+                        if k_ == key(sl):
+                            return val
                 return Unknown(f"{key(v)}[{key(sl)}]", v.taint | taint_of(sl))
             if isinstance(v, Unknown):
                 if isinstance(e.slice, ast.Slice):
@@ -1887,7 +1895,7 @@ class Interp:
                 self.loops = [*self.loops, lp if lp is not None else Loop(f"u{len(self.loops)}", Coll(), arg, fr.fi)]
                 try:
                     t = self.truth(self.loop_value(fr, value, lp, arg))
-                    f = conj([guard, self.take_run_conds(), f_not(t) if universal else t])
+                    f = conj([self.simplify_under(guard, self.guard()), self.take_run_conds(), f_not(t) if universal else t])
                 finally:
                     self.loops[-1].active = False
                     self.loops = saved
@@ -1915,7 +1923,9 @@ class Interp:
             try:
                 value = self.loop_value(fr, value, lp, e)
                 self.assign(fr, g.target, value, e)
-                conds = [guard, self.take_run_conds(), *[self.bf(fr, c) for c in g.ifs]]
+                # (the guard of a per-iteration part repeats the path condition it was created under: what holds here anyway is dropped,
+                # so that the truth value can be used outside this branch, e.g. stored in a memo table)
+                conds = [self.simplify_under(guard, self.guard()), self.take_run_conds(), *[self.bf(fr, c) for c in g.ifs]]
                 inner = self._quant_gen(fr, e, i + 1, universal)
                 f = conj([*conds, inner])  # existential form (for `all`: a counter-example)
             finally:
@@ -2096,6 +2106,11 @@ class Interp:
             return NoneV()
         if name in ("functools.partial", "partial") and args:
             return PartialV(args[0], args[1:], dict(kwargs))
+        if name in ("operator.methodcaller", "methodcaller") and args and isinstance(args[0], Const) and isinstance(args[0].value, str):
+            return PartialV(Builtin("<methodcaller>"), [args[0], *args[1:]], dict(kwargs))
+        if name == "<methodcaller>" and len(args) >= 2 and isinstance(args[0], Const):
+            # methodcaller(name, *a)(obj) == obj.name(*a)
+            return self.call_value(fr, self.attr_of(fr, args[-1], args[0].value) if isinstance(args[-1], (Obj, ClassRef, AltV, SuperRef)) else BoundAPI(args[-1], args[0].value), list(args[1:-1]), kwargs, e)
         if name == "next" and len(args) == 2:
             # next(iterable, default): the default exactly when the iterable is empty
             ne = self.nonempty(self.as_coll(args[0]))
@@ -2226,6 +2241,10 @@ class Interp:
             if attr in ("setdefault", "update", "__setitem__"):
                 for a in [*args, *kwargs.values()]:
                     recv.taint |= self.value_taint(a)
+                if attr in ("setdefault", "__setitem__") and len(args) == 2:
+                    recv.stores.append((key(args[0]), args[1]))
+                    if attr == "setdefault" and root_elem(args[0]) is not None:
+                        return args[1]
             return Unknown(f"{recv.text}.{attr}({','.join(key(a) for a in args)})", t | recv.taint)
         if isinstance(recv, Const) and isinstance(recv.value, str):
             return Unknown(f"{recv.value!r}.{attr}({','.join(key(a) for a in args)})", t, False)
